@@ -231,8 +231,12 @@ def run(ctx):
                         okr = False
                         msg = f'`return {v}` at line {r.lineno} is reachable after the target tensor was written (line {first_store}): the protocol falls back to another strategy on a half-updated state'
                     continue
+                delegates = {n.targets[0].id for n in ast.walk(fn) if isinstance(n, ast.Assign) and isinstance(n.targets[0], ast.Name)
+                             and isinstance(n.value, ast.Call) and call_name(n.value) == 'getattr' and len(n.value.args) >= 2
+                             and isinstance(n.value.args[1], ast.Constant) and str(n.value.args[1].value).startswith('_apply_')}
                 good = v in (f'{aname}.target_tensor', f'{aname}.available_buffer', f'{aname}.out_buffer') or \
-                    any(k in v for k in ('apply_unitary', 'apply_unitaries', 'apply_channel', 'targeted_left_multiply', 'getter(')) or \
+                    any(k in v for k in ('apply_unitary', 'apply_unitaries', 'apply_channel', 'targeted_left_multiply')) or \
+                    (isinstance(r.value, ast.Call) and isinstance(r.value.func, ast.Name) and r.value.func.id in delegates) or \
                     (isinstance(r.value, ast.Name) and r.value.id in locals_ok)
                 if not good:
                     okr = False
